@@ -1,5 +1,7 @@
 From Tetl Require Import Lib.Base C02.Model.
+From Tetl Require C08.Model C08.Core C02.ModelFp.
 Require Extraction.
 Require Import ExtrOcamlBasic.
 Extraction Language OCaml.
-Extraction "C02_model.ml" wire_anchor members read_poisoned default_obs default_obs_poisoned empty_state default_size all_objs.
+Extraction "C02_model.ml" wire_anchor members read_poisoned default_obs default_obs_poisoned empty_state default_size all_objs
+  C08.Model.mkview C08.Core.vchars C02.ModelFp.tfp_scan C02.ModelFp.tfp_spec C02.ModelFp.tfp_scan_prefix.
